@@ -9,7 +9,7 @@ from mc.runner import Acc
 ID = 'C10'
 LEVEL = 'model_checking'
 RULE = ('every operator x every ordered pair of the value pool (cell-reference form through a compiled formula; '
-        'literal form where a literal spelling exists; a subset again through ExcelCompiler.evaluate on a real '
+        'literal form where a literal spelling exists; cell x literal and literal x cell for the core pool; a subset again through ExcelCompiler.evaluate on a real '
         'workbook), each compared with a reference coercion/ordering table written from the statement; order axioms '
         '(trichotomy, complements, transitivity on all triples) checked on the tabulated relation. '
         'distinct_nontrivial = distinct (op, a, b) with at least one non-number operand or an error-producing rule.')
@@ -21,7 +21,8 @@ POOL = [0, 1, -1, 2, 3, 0.5, -2.5, 100,
         '', 'a', 'A', 'b', 'abc',
         True, False, None] + list(R.ERRORS)
 EXT = [1234567, 3.14159265, 0.1, 0.2, 1000, -1000, 12345.678, 7.0, -0.5, '1e2', '5E-1', '-2e1', '2.50', 'B', 'aB', ' ', '1 ', 'TRUE', 10,
-       'inf', 'nan', '1e400', '1_000', '\u00b2', '12\u00b3', '\u2460']       # superscript / circled digits: str.isdigit() but not numbers
+       'inf', 'nan', '1e400', '1_000', '\u00b2', '12\u00b3', '\u2460',       # superscript / circled digits: str.isdigit() but not numbers
+       0.3, 0.30000000000000004, 1.0000000000000002]      # distinct numbers that agree to 15 significant digits: one of < = > only
 BIN_OPS = ['+', '-', '*', '/', '^', '&', '=', '<>', '<', '<=', '>', '>=']
 ALL_OPS = BIN_OPS + ['neg', '%']
 
@@ -113,6 +114,22 @@ def work(job):
             if msg:
                 acc.violation(dict(kind='pair', op=op, a=a, b=b, form='literals', a_t=W.kind(a), b_t=W.kind(b),
                                    observed=obs), f'{f} {msg}')
+    elif mode in ('cell-literal', 'literal-cell'):
+        # one operand read from a cell, the other written in the formula: the two are compiled differently
+        lits = [(v, literal(v)) for v in values if literal(v) is not None]
+        for a in values:
+            for (b, lb) in lits:
+                if mode == 'cell-literal':
+                    f, env, x, y = formula_for(op, 'A1', lb), {'A1': a}, a, b
+                else:
+                    f, env, x, y = formula_for(op, lb, 'B1'), {'B1': a}, b, a
+                obs = ev.run(f, env)
+                acc.add('evaluations')
+                acc.add('mixed_forms')
+                msg = judge(op, x, y, obs)
+                if msg:
+                    acc.violation(dict(kind='pair', op=op, a=x, b=y, form=mode, a_t=W.kind(x), b_t=W.kind(y),
+                                       observed=obs), f'{f} with {env} {msg}')
     elif mode == 'workbook':
         n = len(values)
         cells = {f'A{i + 1}': v for i, v in enumerate(values) if v is not None}
@@ -151,6 +168,7 @@ def run(ctx):
     values = values[k:] + values[:k]          # rotation only; the set is always complete
     jobs = [(op, 'cells', values) for op in ALL_OPS]
     jobs += [(op, 'literals', values) for op in ALL_OPS]
+    jobs += [(op, mode, values if ctx.thorough else POOL) for op in BIN_OPS for mode in ('cell-literal', 'literal-cell')]
     wb_ops = ALL_OPS if ctx.thorough else ['+', '&', '<', '^']
     wb_vals = values if ctx.thorough else POOL
     jobs += [(op, 'workbook', wb_vals) for op in wb_ops]
@@ -217,6 +235,12 @@ def replay(case):
         if case['form'] == 'literals':
             f = formula_for(op, literal(a), literal(b))
             obs = ev.run(f, {})
+        elif case['form'] == 'cell-literal':
+            f = formula_for(op, 'A1', literal(b))
+            obs = ev.run(f, {'A1': a})
+        elif case['form'] == 'literal-cell':
+            f = formula_for(op, literal(a), 'B1')
+            obs = ev.run(f, {'B1': b})
         else:
             f = formula_for(op)
             obs = ev.run(f, {'A1': a, 'B1': b})
